@@ -51,7 +51,16 @@ def cases(tier, seed):
             # to a season without bunds
             kw.update(off_season=True, soil_names=["Clay", "SiltClay", "Paddy", "SandyClay"], p_custom=0.0, p_gw=0.0,
                       regimes=["humid", "monsoon"], p_file=0.0, pre=(30, 90), seasons=(2, 3))
+        if cls == 1 and i % 12 == 1:
+            # pre-irrigation on a grid whose first compartment differs from those below it
+            kw.update(p_custom=0.0, soil_names=["SandyLoam", "Loam", "ClayLoam", "SiltLoam"], iwc_kinds=("WP", "Pct"),
+                      crops=["Maize", "Wheat", "Tomato", "Cotton", "Potato", "Sunflower"], pre=(0,))
         sp = gen.config(rng, **kw)
+        if cls == 1 and i % 12 == 1:
+            sp["soil"] = {"type": sp["soil"]["type"], "kw": {"dz": gen.pick(rng, [[0.05, 0.05, 0.1, 0.1, 0.2, 0.2, 0.25, 0.25],
+                                                                                     [0.2, 0.1, 0.1, 0.1, 0.1, 0.1, 0.25, 0.25],
+                                                                                     [0.05] * 4 + [0.15] * 6])}}
+            sp["irr"]["kw"]["NetIrrSMT"] = float(gen.pick(rng, [70, 80, 90]))
         if cls == 4 and i % 12 == 4:
             sp["fm"] = dict(sp.get("fm") or {}, bunds=False)
             sp["ffm"] = {"bunds": True, "z_bund": float(gen.pick(rng, [0.1, 0.2, 0.3])), "bund_water": float(gen.pick(rng, [0.0, 50.0]))}
